@@ -274,7 +274,15 @@ fn hot_in_doc(doc: &[u8], needles: &[&str], n: usize) -> Vec<usize> {
 }
 
 fn be_words(offsets: &[usize]) -> Vec<WordField> {
-    offsets.iter().map(|off| WordField { off: *off, width: 8, enc: WordEnc::Be, hex: false }).collect()
+    offsets
+        .iter()
+        .map(|off| WordField {
+            off: *off,
+            width: 8,
+            enc: WordEnc::Be,
+            hex: false,
+        })
+        .collect()
 }
 
 fn words_of_bytes(bytes: &[u8]) -> Vec<WordField> {
@@ -296,17 +304,41 @@ fn bincode_words(bytes: &[u8], map_proof: bool) -> Vec<WordField> {
         let first = *b.get(at)?;
         let (val, width) = match first {
             0..=250 => (first as u64, 0usize),
-            0xfb => (u16::from_le_bytes(b.get(at + 1..at + 3)?.try_into().ok()?) as u64, 2),
-            0xfc => (u32::from_le_bytes(b.get(at + 1..at + 5)?.try_into().ok()?) as u64, 4),
-            0xfd => (u64::from_le_bytes(b.get(at + 1..at + 9)?.try_into().ok()?), 8),
+            0xfb => (
+                u16::from_le_bytes(b.get(at + 1..at + 3)?.try_into().ok()?) as u64,
+                2,
+            ),
+            0xfc => (
+                u32::from_le_bytes(b.get(at + 1..at + 5)?.try_into().ok()?) as u64,
+                4,
+            ),
+            0xfd => (
+                u64::from_le_bytes(b.get(at + 1..at + 9)?.try_into().ok()?),
+                8,
+            ),
             _ => return None,
         };
         if width == 0 {
-            out.push(WordField { off: at, width: 1, enc: WordEnc::Le, hex: false });
+            out.push(WordField {
+                off: at,
+                width: 1,
+                enc: WordEnc::Le,
+                hex: false,
+            });
         } else {
-            out.push(WordField { off: at + 1, width, enc: WordEnc::Le, hex: false });
+            out.push(WordField {
+                off: at + 1,
+                width,
+                enc: WordEnc::Le,
+                hex: false,
+            });
         }
-        out.push(WordField { off: at, width: 8, enc: WordEnc::BincodeMarker, hex: false });
+        out.push(WordField {
+            off: at,
+            width: 8,
+            enc: WordEnc::BincodeMarker,
+            hex: false,
+        });
         *pos = at + 1 + width;
         Some(val)
     }
@@ -341,7 +373,11 @@ fn bincode_words(bytes: &[u8], map_proof: bool) -> Vec<WordField> {
     }
     let mut out = Vec::new();
     let mut pos = 0usize;
-    let ok = if map_proof { map(bytes, &mut pos, &mut out, 0) } else { proof(bytes, &mut pos, &mut out) };
+    let ok = if map_proof {
+        map(bytes, &mut pos, &mut out, 0)
+    } else {
+        proof(bytes, &mut pos, &mut out)
+    };
     assert!(
         ok.is_some() && pos == bytes.len(),
         "the bincode walker does not match the honest encoding (layout changed?)"
@@ -1369,10 +1405,24 @@ impl Builder {
         hot.extend(2 + set_len..2 + set_len + 4);
         let sig_at = 2 + set_len + 4;
         let mut words = vec![
-            WordField { off: 0, width: 2, enc: WordEnc::Be, hex: false },
-            WordField { off: 2 + set_len, width: 4, enc: WordEnc::Be, hex: false },
+            WordField {
+                off: 0,
+                width: 2,
+                enc: WordEnc::Be,
+                hex: false,
+            },
+            WordField {
+                off: 2 + set_len,
+                width: 4,
+                enc: WordEnc::Be,
+                hex: false,
+            },
         ];
-        words.extend(words_of_bytes(&bytes[sig_at..]).iter().map(|w| w.shifted(sig_at)));
+        words.extend(
+            words_of_bytes(&bytes[sig_at..])
+                .iter()
+                .map(|w| w.shifted(sig_at)),
+        );
         hot.extend(
             hot_of_bytes(&bytes[sig_at..])
                 .into_iter()
@@ -1733,9 +1783,13 @@ impl Builder {
 /// word fields of the bincode proof carried as a hex string inside a JSON document
 fn words_of_hex_proof_in_doc(doc: &[u8], proof_hex: Option<&str>) -> Vec<WordField> {
     let Some(text) = proof_hex else { return vec![] };
-    let Ok(bytes) = hex::decode(text) else { return vec![] };
+    let Ok(bytes) = hex::decode(text) else {
+        return vec![];
+    };
     let needle = text.as_bytes();
-    let Some(at) = doc.windows(needle.len()).position(|w| w == needle) else { return vec![] };
+    let Some(at) = doc.windows(needle.len()).position(|w| w == needle) else {
+        return vec![];
+    };
     words_hex(&bincode_words(&bytes, true), at)
 }
 
